@@ -470,6 +470,8 @@ TM["roll"] = _roll
 def _mk_const(value):
     def f(*size, dtype=None, **kw):
         _drop(kw, "out")
+        if not size and "size" in kw:
+            size = (tuple(kw.pop("size")),)
         return const_tensor(ops._shape_args(size), dtype_cls(dtype, "f"), value)
 
     return f
@@ -789,6 +791,67 @@ def _rand(*size, **kw):
 TF["rand"] = _rand
 
 
+def _randint(*args, size=None, **kw):
+    """torch.randint(low=0, high, size): an arbitrary integer tensor with entries in [low, high) (assumed sampler contract, A10)."""
+    from .core import input_tensor
+
+    args = list(args)
+    if size is None:
+        size = args.pop()
+    low, high = (0, args[0]) if len(args) == 1 else (args[0], args[1])
+    shape = ops._shape_args((tuple(size),))
+    _RAND[0] += 1
+    t = input_tensor(f"randint{_RAND[0]}", shape, "i")
+    s_ = t.snap()
+    cur().wf("randint-nonempty-range", zint(low) < zint(high))
+    ops.assume_forall(shape, lambda I: z3.And(s_(I) >= zint(low), s_(I) < zint(high)))
+    return t
+
+
+TF["randint"] = _randint
+
+
+def _float_tensor(*size, **kw):
+    """torch.FloatTensor(*size) / torch.empty: uninitialised memory = an arbitrary float tensor."""
+    from .core import input_tensor
+
+    shape = ops._shape_args(size)
+    _RAND[0] += 1
+    return input_tensor(f"uninit{_RAND[0]}", shape, "f")
+
+
+TF["FloatTensor"] = _float_tensor
+
+
+def _cdist(x1, x2, p=2, **kw):
+    """torch.cdist(x1 [B,P,M], x2 [B,R,M], p=2) -> [B,P,R]: pairwise Euclidean distances (M concrete)."""
+    if p not in (2, 2.0):
+        raise Unsupported("cdist with p != 2")
+    if x1.rank != 3 or x2.rank != 3:
+        raise Unsupported("cdist on non-3-D tensors")
+    a = ops.unsqueeze(x1, 2)            # [B,P,1,M]
+    b = ops.unsqueeze(x2, 1)            # [B,1,R,M]
+    return ops.norm(binop("sub", a, b), 2, -1, False)
+
+
+TF["cdist"] = _cdist
+
+
+def _uniform_(t, a=0, b=1, **kw):
+    """Tensor.uniform_(a, b): every element is overwritten in place by an arbitrary value in [a, b] (assumed sampler contract, A10)."""
+    from .core import input_tensor
+
+    _RAND[0] += 1
+    d = input_tensor(f"uniform{_RAND[0]}", tuple(t.shape), "f")
+    s_ = d.snap()
+    ops.assume_forall(tuple(t.shape), lambda I: z3.And(s_(I) >= cast(a, "f"), s_(I) <= cast(b, "f")))
+    t.write(lambda idx, old: s_(idx))
+    return t
+
+
+TM["uniform_"] = _uniform_
+
+
 # ---- nonzero: only the row-wise enumeration idiom  x.nonzero(as_tuple=True)[1].view(B, -1)  on a 2-D tensor
 class NonzeroCols:
     """Column indices of the non-zero entries of a [B, N] tensor in row-major order (torch.nonzero contract).
@@ -827,7 +890,26 @@ class NonzeroCols:
         return mk((B, cdim), "i", lambda I: f(zint(I[0]), zint(I[1])))
 
 
+def _pick(vals, i):
+    r = zint(vals[-1])
+    for k in range(len(vals) - 2, -1, -1):
+        r = z3.If(zint(i) == k, zint(vals[k]), r)
+    return r
+
+
 def _nonzero(t, as_tuple=False):
+    if not as_tuple and t.rank == 1 and isinstance(t.shape[0], int) and t.shape[0] <= 32:
+        # a tensor of concrete values (e.g. torch.tensor(list of python numbers)): the indices are concrete too
+        vals = [z3.simplify(cast(t.at(k), "f")) if is_z3(t.at(k)) else t.at(k) for k in range(t.shape[0])]
+        if all(not is_z3(v) or z3.is_rational_value(v) or z3.is_int_value(v) or z3.is_true(v) or z3.is_false(v) for v in vals):
+            def nz(v):
+                if z3.is_true(v):
+                    return True
+                if z3.is_false(v):
+                    return False
+                return (v.as_fraction() != 0) if is_z3(v) else bool(v)
+            idx = [k for k, v in enumerate(vals) if nz(v)]
+            return mk((len(idx), 1), "i", lambda I: idx[I[0]] if isinstance(I[0], int) else _pick(idx, I[0]))
     if not as_tuple or t.rank != 2:
         raise Unsupported("nonzero (only the 2-D as_tuple=True row enumeration idiom is modelled)")
     return (None, NonzeroCols(t))
@@ -964,7 +1046,8 @@ class MaskedSel:
 MASKED_ELEMENTWISE = {"max", "min", "maximum", "minimum", "floor", "ceil", "abs", "int", "long", "float", "double", "bool", "clamp",
                       "clamp_min", "clamp_max", "relu", "square", "sqrt", "exp", "log", "neg", "round", "to", "type", "clone", "detach",
                       "isinf", "isnan", "isfinite", "logical_not", "eq", "ne", "lt", "le", "gt", "ge", "add", "sub", "mul", "div",
-                      "true_divide", "sign", "reciprocal", "pow", "logical_and", "logical_or", "where", "masked_fill", "cpu", "contiguous"}
+                      "true_divide", "sign", "reciprocal", "pow", "logical_and", "logical_or", "where", "masked_fill", "cpu", "contiguous",
+                      "zeros_like", "ones_like", "full_like"}
 
 
 def masked_lift(fn, *args):
